@@ -397,6 +397,10 @@ func c13Gen(t *rapid.T) c13Case {
 			c.Ops = append(c.Ops, c13Op{Kind: "read", Start: addr("a")})
 		case k <= 8:
 			c.Ops = append(c.Ops, c13Op{Kind: "write", Start: addr("a"), Val: rapid.Byte().Draw(t, "val")})
+			if rapid.IntRange(0, 3).Draw(t, "same-write-again") == 0 {
+				// the same byte to the same address once more (a device counts its writes; a memory attached in between must get it)
+				c.Ops = append(c.Ops, c.Ops[len(c.Ops)-1])
+			}
 		default:
 			s := addr("s")
 			ln := rapid.IntRange(0, 80).Draw(t, "dump-len")
@@ -618,7 +622,7 @@ func init() {
 func TestC13(t *testing.T) {
 	rig.Main(t, "C13", "rapid op lists on a fresh bus.Bus with four recording memories: aligned Attach over ranges around three anchors (overlap, "+
 		"abut, nest, re-attach), misaligned Attach, single reads/writes, EaDump over 1-80 addresses at any alignment into a sentinel-filled buffer with a canary; "+
-		"model = owner per 16-byte block.  Non-trivial = the history contains an Attach followed by a read, write or dump of an attached address; distinct = hash(ops).",
+		"model = owner per 16-byte block; a quarter of the writes are repeated (same byte, same address).  Non-trivial = the history contains an Attach followed by a read, write or dump of an attached address; distinct = hash(ops).",
 		func(r *rig.Run) {
 			ev := r.Ev
 			if rig.Shard() == 0 {
